@@ -185,7 +185,7 @@ func c07StuckGoroutines() []string {
 	buf = buf[:runtime.Stack(buf, true)]
 	var out []string
 	for _, g := range strings.Split(string(buf), "\n\n") {
-		if strings.Contains(g, "dnsdata/rdb.compile") || strings.Contains(g, "dnsdata/cdb.CreateCDB") || strings.Contains(g, "dnsdata.ParseStream") || strings.Contains(g, "dnsdata.parse") {
+		if strings.Contains(g, "checks.c07CompileFrom") || strings.Contains(g, "dnsdata/rdb.compile") || strings.Contains(g, "dnsdata/cdb.CreateCDB") || strings.Contains(g, "dnsdata.ParseStream") || strings.Contains(g, "dnsdata.parse") {
 			out = append(out, c07Frame.ReplaceAllString(g, ""))
 		}
 	}
@@ -212,22 +212,37 @@ func c07CompileFrom(rd io.Reader, s c07Setting, path string, limit time.Duration
 		return err, false, ""
 	case <-time.After(limit):
 	}
-	a := c07StuckGoroutines()
-	time.Sleep(2 * time.Second)
-	select {
-	case err = <-done:
-		return err, false, ""
-	default:
-	}
-	b := c07StuckGoroutines()
-	blocked := len(a) > 0 && len(a) == len(b)
-	for i := range a {
-		if !blocked || a[i] != b[i] || !(strings.Contains(a[i], "[chan send") || strings.Contains(a[i], "[chan receive") || strings.Contains(a[i], "[semacquire") || strings.Contains(a[i], "[select") || strings.Contains(a[i], "[sync.")) {
-			blocked = false
+	// the watchdog only starts the examination: a compilation that is merely slow (a machine loaded far beyond its
+	// cores, the bulk loader's large allocations) is waited for up to ten more minutes; a deadlock is declared only
+	// when the goroutine running THIS compilation and every other compiler goroutine sit blocked at identical frames
+	// in two dumps 2 s apart
+	for round := 0; round < 10; round++ {
+		a := c07StuckGoroutines()
+		time.Sleep(2 * time.Second)
+		select {
+		case err = <-done:
+			return err, false, ""
+		default:
 		}
-	}
-	if blocked {
-		return nil, true, strings.Join(a, "\n\n")
+		b := c07StuckGoroutines()
+		blocked := len(a) > 0 && len(a) == len(b)
+		mine := false
+		for i := range a {
+			if !blocked || a[i] != b[i] || !(strings.Contains(a[i], "[chan send") || strings.Contains(a[i], "[chan receive") || strings.Contains(a[i], "[semacquire") || strings.Contains(a[i], "[select") || strings.Contains(a[i], "[sync.")) {
+				blocked = false
+			}
+			if strings.Contains(a[i], "checks.c07CompileFrom") {
+				mine = true
+			}
+		}
+		if blocked && mine {
+			return nil, true, strings.Join(a, "\n\n")
+		}
+		select {
+		case err = <-done:
+			return err, false, ""
+		case <-time.After(60 * time.Second):
+		}
 	}
 	return nil, true, ""
 }
